@@ -20,6 +20,7 @@ import (
 	"time"
 
 	"github.com/oauth2-proxy/oauth2-proxy/v7/pkg/apis/options"
+	sessionsapi "github.com/oauth2-proxy/oauth2-proxy/v7/pkg/apis/sessions"
 	"github.com/oauth2-proxy/oauth2-proxy/v7/pkg/logger"
 	"github.com/oauth2-proxy/oauth2-proxy/v7/pkg/sessions/persistence"
 	redisstore "github.com/oauth2-proxy/oauth2-proxy/v7/pkg/sessions/redis"
@@ -28,6 +29,8 @@ import (
 	"github.com/oauth2-proxy/oauth2-proxy/v7/verifx/vtime"
 	"github.com/oauth2-proxy/oauth2-proxy/v7/verifx/world"
 	"github.com/spf13/pflag"
+	"reflect"
+	"unsafe"
 )
 
 // ---------------------------------------------------------------------------------------------
@@ -361,6 +364,23 @@ type Proxy struct {
 	Cfg   *ProxyCfg
 }
 
+// verifSessionStore returns the proxy's session store without naming the unexported field: the
+// first field of OAuthProxy whose type implements sessions.SessionStore.
+func verifSessionStore(p *OAuthProxy) sessionsapi.SessionStore {
+	iface := reflect.TypeOf((*sessionsapi.SessionStore)(nil)).Elem()
+	rv := reflect.ValueOf(p).Elem()
+	for i := 0; i < rv.NumField(); i++ {
+		f := rv.Field(i)
+		if f.Type().Implements(iface) || (f.Kind() == reflect.Interface && f.Type() == iface) {
+			v := reflect.NewAt(f.Type(), unsafe.Pointer(f.UnsafeAddr())).Elem()
+			if s, ok := v.Interface().(sessionsapi.SessionStore); ok && s != nil {
+				return s
+			}
+		}
+	}
+	panic("verif: OAuthProxy has no field holding a session store")
+}
+
 func baseFlags(upstreamURL string) []string {
 	return []string{
 		"--provider=oidc",
@@ -452,9 +472,9 @@ func buildProxy(cfg *ProxyCfg) (*Proxy, error) {
 		px.H = http.AllowQuerySemicolons(p)
 	}
 	if cfg.Redis != nil {
-		m, ok := p.sessionStore.(*persistence.Manager)
+		m, ok := verifSessionStore(p).(*persistence.Manager)
 		if !ok {
-			return nil, fmt.Errorf("redis store is not a persistence.Manager: %T", p.sessionStore)
+			return nil, fmt.Errorf("redis store is not a persistence.Manager: %T", verifSessionStore(p))
 		}
 		rs, ok := m.Store.(*redisstore.SessionStore)
 		if !ok {
